@@ -39,14 +39,19 @@ Sane(o) == (o.D = 0 => ~o.trunc) /\ \A i \in DOMAIN o.rows : o.rows[i].a # <<>>
 Refines     == IsCase => LET o == O IN AsRequired(o) /\ Sane(o)
 RefinesOrD4 == IsCase => LET o == O IN (AsRequired(o) \/ Sig(o) = "dump.nested_root_addr_width") /\ Sane(o)
 \* NOT a fact (TLC: start 1, 34 bits, line_bytes 2, display_bytes 2): a truncated value may stop one byte into a line --
-\* `lastDisplayBit % lineBits != 0` tests the first bit of a line, not the last; harmless for the property (witness below)
-NeverTruncMidLine == IsCase => LET o == O IN (o.trunc => LET r == o.rows[Len(o.rows)] IN r.cells[Len(r.cells)].c = o.L - 1)
-\* witnesses (expected to be violated): the branches of the arithmetic are reached
-NeverD4      == IsCase => LET o == O IN Sig(o) # "dump.nested_root_addr_width" \/ AsRequired(o)
-NeverTrunc   == IsCase => ~O.trunc
-NeverMark    == IsCase => LET o == O IN \A i \in DOMAIN o.rows : ~o.rows[i].mark
-NeverCut     == IsCase => LET o == O IN (o.trunc => o.ufull)
-NeverMidLine == IsCase => Arith(c.x.s, c.x.n, Blen(c.x), c.x.L, DOf(c.x.L, c.x.k)).startLineByteOffset = 0
+\* `lastDisplayBit % lineBits != 0` tests the first bit of a line, not the last; harmless for the property (see Witness)
+\* anti-vacuity: a constraint that reports which branches of the arithmetic the cases reach (one line per branch and case)
+Tag(b, t) == IF b THEN PrintT("WITNESS " \o t) ELSE TRUE
+Witness == IsCase => LET o == O
+                         ar == Arith(c.x.s, c.x.n, Blen(c.x), c.x.L, DOf(c.x.L, c.x.k)) IN
+    /\ Tag(o.trunc, "truncated")
+    /\ Tag(\E i \in DOMAIN o.rows : o.rows[i].mark, "end marker")
+    /\ Tag(o.trunc /\ ~o.ufull, "until text cut by column")
+    /\ Tag(ar.startLineByteOffset # 0, "start inside a line")
+    /\ Tag(o.trunc /\ o.rows[Len(o.rows)].cells[Len(o.rows[Len(o.rows)].cells)].c # o.L - 1, "truncation one byte into a line")
+    /\ Tag(ar.displaySizeBits % 8 # 0, "display size clipped at buffer end")
+    /\ Tag(c.x.rd > 0 /\ ~AsRequired(o) /\ Sig(o) = "dump.nested_root_addr_width", "D4 nested root address cut")
+    /\ Tag(c.x.rd > 0 /\ AsRequired(o), "nested root dump true (single line at 0)")
 
 \* GEN
 Emit == IsCase => PrintT(ToJson([s |-> c.x.s, n |-> c.x.n, L |-> c.x.L, D |-> DOf(c.x.L, c.x.k), ab |-> c.x.ab, sb |-> c.x.sb, bb |-> Blen(c.x)]))
